@@ -29,6 +29,7 @@ struct S {
 enum E { A = 1 (e1 = "1", e2 = "2"), B }
 const map<string, i32> CM = {"a": 1, "b": 2}
 const map<i32, list<string>> CN = {1: ["p"], 2: ["q", "r"]}
+const map<string, i32> CD = {"alpha": 1, "beta": 2, "alpha": 3}
 `,
 	},
 	// 1: many includes, services and exceptions
